@@ -45,6 +45,15 @@ func (c *Ctx) absMethod(s *Shadow, name string) Value {
 		return DtypeV{Idx: dtypeIndex(s.dt)}
 	case "Dims":
 		return c.St.BVC(64, uint64(len(s.absShape)))
+	case "Size", "DataSize":
+		// a freshly made contiguous tensor: as many stored elements as its shape says
+		n := c.St.BVC(64, 1)
+		for _, d := range s.absShape {
+			n = c.St.BVMul(n, d)
+		}
+		return n
+	case "IsScalar":
+		return c.St.BoolC(len(s.absShape) == 0)
 	}
 	panic(c.abort("abstract (shape-only) tensor %s: call of %s touches more than its shape", s.name, name))
 }
